@@ -471,6 +471,7 @@ class Consumer(object):
         # own, and never let the late result into a later run.
         self._run += 1
         self._request_d = None
+        self._commit_req = None
         if self._shutdown_d is not None:
             # A graceful shutdown is still waiting for the processor, whose
             # deferred did not fire when we cancelled it: the shutdown ends
@@ -702,8 +703,9 @@ class Consumer(object):
         self._last_processed_offset = offset
         self._auto_commit(by_count=True)
 
-    def _clear_commit_req(self, result):
-        self._commit_req = None  # It has fired, we can clear it
+    def _clear_commit_req(self, result, d=None):
+        if d is None or self._commit_req is d:
+            self._commit_req = None  # It has fired, we can clear it
         return result
 
     def _check_commit_response(self, responses):
@@ -780,13 +782,14 @@ class Consumer(object):
             consumer_id=self.commit_consumer_id,
         )
 
-        d.addBoth(self._clear_commit_req)
+        d.addBoth(self._clear_commit_req, d)
         d.addCallback(self._check_commit_response)
+        # Like the fetch side: the result belongs to this run (should the
+        # client complete the request although stop() cancelled it, a later
+        # run must neither record it nor retry it)
         d.addCallbacks(
-            callback=self._update_committed_offset,
-            callbackArgs=(commit_offset,),
-            errback=self._handle_commit_error,
-            errbackArgs=(commit_offset, retry_delay, attempt),
+            callback=self._in_this_run(self._update_committed_offset, commit_offset),
+            errback=self._in_this_run(self._handle_commit_error, commit_offset, retry_delay, attempt),
         )
 
     def _handle_commit_error(self, failure, commit_offset, retry_delay, attempt):
@@ -1132,7 +1135,7 @@ class Consumer(object):
             _msg_block_d, self._msg_block_d = self._msg_block_d, None
             _msg_block_d.callback(True)
 
-    def _in_this_run(self, handler):
+    def _in_this_run(self, handler, *args):
         """Tie a request's result handler to the run that issues the request
 
         Once that run has been stopped the result (which the client may
@@ -1145,7 +1148,7 @@ class Consumer(object):
             if self._run != run:
                 log.debug("%r: dropping the result of a request of an earlier run: %r", self, result)
                 return None
-            return handler(result)
+            return handler(result, *args)
 
         return handle
 
